@@ -415,7 +415,7 @@ def record_trace_rejection(rep, tr, trace, tag):
     while start > 0 and '"ev":"reset"' not in lines[start]:
         start -= 1
     bad = lines[consumed] if consumed < len(lines) else "(end of trace)"
-    klass = "trace:" + (tr["violated"] or "unexplained-event")
+    klass = ("shell:" if tag == "shell" else "trace:") + (tr["violated"] or "unexplained-event")
     mism = [l for l in tr["out"].splitlines() if "MISMATCH" in l]
     rep.violation(klass, "event %d of the recorded run is not a step of the spec: %s %s" % (consumed - start, bad[:160], " ".join(mism)[:300]),
                   "\n".join(lines[start:consumed + 1]) + "\n", name="%s_rejected.ndjson" % tag)
